@@ -28,8 +28,8 @@ META = {
         'a copy, and the input is returned unchanged when no pixel is bad; C17.SKY - skymask tests exactly BADSKYCHI and '
         'REDMONSTER on ormask, dilates each row with width 2*ngrow+1 using the edge-truncating smooth, multiplies invvar by the '
         'complement; C17.SKY-CAST - each & between the caller\'s mask and a uint64 flag value has an explicit conversion. '
-        'C17.MEDIAN - djs_median does not pad with the non-repeating reflect mode of numpy.pad. C17.SMOOTH - smooth() uses the requested width made odd and returns its input unchanged only for widths below 3; C17.REJ-MASKS also: the model-less first pass hands back the input mask. NOT decided: the explicit reflection slices of djs_median, maxrej/group logic, numerical interpolation values.'),
-    'floors': {'C17.SMOOTH': 3, 'C17.MI-SITES': 6, 'C17.MI1-STORE': 6, 'C17.MI1-ORDER': 1, 'C17.GROW': 3, 'C17.REJ-MASKS': 10, 'C17.AESTH': 4,
+        'C17.MEDIAN - djs_median does not pad with the non-repeating reflect mode of numpy.pad. C17.SMOOTH - smooth() uses the requested width made odd and returns its input unchanged only for widths below 3; C17.REJ-MASKS also: the model-less first pass hands back the input mask. C17.FLOAT-OUT - the arrays that djs_maskinterp fills with interpolated samples and djs_reject with scaled deviations are not allocated in the dtype of the data; C17.INMASK-TRUTH - djs_reject turns the caller\'s inmask into truth values before combining it bitwise; NOT decided: the explicit reflection slices of djs_median, maxrej/group logic, numerical interpolation values.'),
+    'floors': {'C17.INMASK-TRUTH': 2, 'C17.FLOAT-OUT': 2, 'C17.SMOOTH': 3, 'C17.MI-SITES': 6, 'C17.MI1-STORE': 6, 'C17.MI1-ORDER': 1, 'C17.GROW': 3, 'C17.REJ-MASKS': 10, 'C17.AESTH': 4,
                'C17.SKY': 5, 'C17.SKY-CAST': 1, 'C17.MEDIAN': 1},
 }
 
@@ -247,6 +247,32 @@ def check_reject(ctx, repo):
         ctx.check('C17.GROW', ok and try_fold(st.value) == 0, f, st, 'neighbour rejection indexes the mask with a clamped index list: %s' % src(idx)[:60],
                   msg='the grow step indexes the data-length mask with `%s`, which is not the reject index list shifted by k and clamped to the array '
                       '(a comparison here is a boolean over the reject list, not an index)' % src(idx)[:70], construct='grow store ' + src(st)[:80])
+    # INMASK-TRUTH: the caller's mask enters bitwise combinations as truth values (the documentation speaks of entries that
+    # "evaluate to False"): 1 & 2 == 0, so an even non-zero entry would otherwise count as excluded
+    im = 'inmask' if 'inmask' in f.params else None
+    if im:
+        def truthy(v):
+            if isinstance(v, ast.Compare) and len(v.ops) == 1 and isinstance(v.ops[0], (ast.NotEq, ast.Gt)) and try_fold(v.comparators[0]) == 0:
+                return True
+            if isinstance(v, ast.Call) and call_name(v) in ('astype', 'asarray', 'array'):
+                return 'bool' in src(v)
+            return False
+        uses = []
+        for n_ in walk_local(f.node):
+            ops = None
+            if isinstance(n_, ast.BinOp) and isinstance(n_.op, ast.BitAnd):
+                ops = [n_.left, n_.right]
+            elif isinstance(n_, ast.AugAssign) and isinstance(n_.op, ast.BitAnd):
+                ops = [n_.value]
+            for o in ops or []:
+                if isinstance(o, ast.Name) and o.id == im:
+                    uses.append((n_, o))
+        for n_, o in uses:
+            ds = [v for d, v in fa.defs(o) if v is not None]
+            ok = any(truthy(v) for v in ds)
+            ctx.check('C17.INMASK-TRUTH', ok, f, n_, '`%s`: inmask enters the bitwise AND as truth values' % src(n_)[:50],
+                      msg='djs_reject combines the caller\'s inmask bitwise (`%s`) without turning it into truth values: a good point whose mask entry is an even '
+                          'non-zero number (2, 4, ...) is reported as rejected' % src(n_)[:60], construct='bitwise use of inmask: ' + src(n_)[:60])
     # REJ-MASKS
     def has_stmt(pred):
         return [st for st in walk_local(f.node) if pred(st)]
@@ -700,6 +726,9 @@ def check_smooth_width(ctx, repo):
 
 
 def run(ctx):
+    from .floatlib import check_float_alloc
+    check_float_alloc(ctx, ctx.repo, 'C17.FLOAT-OUT', [(IMAGE, 'djs_maskinterp'), (MATH, 'djs_reject')],
+                      'interpolated samples are truncated (2-D / 3-D integer images), resp. the badness of integer data cannot be accumulated at all')
     repo = ctx.repo
     check_smooth_width(ctx, repo)
     check_median(ctx, repo)
